@@ -73,6 +73,9 @@ class ListGeomArray(Sort):
         from pyvc.witness import gen_float
         L = self.levels
         n_parent = rng.choice([1, 2, 3, 4, 5])
+        aligned = rng.random() < 0.2
+        if aligned:
+            n_parent = rng.choice([9, 12, 17, 20])      # room for a window starting at a byte-aligned offset
         # build top-down counts so that every level is consistent
         counts = [n_parent]
         levels = []
@@ -86,7 +89,30 @@ class ListGeomArray(Sort):
             levels.append(cur)
             counts.append(cur[-1])
         values = [gen_float(rng, self.finite) for _ in range(levels[-1][-1])]
+        if self.cls in ('PolygonArray', 'MultiPolygonArray') and rng.random() < 0.7:
+            # valid polygons: closed rectangular rings, the first ring of a polygon is the shell, the others lie inside it
+            ring_off = [0]
+            polys = levels[-2]            # polygon -> ring positions
+            values = []
+            for pi in range(len(polys) - 1):
+                cx, cy = rng.randint(-3, 5), rng.randint(-3, 5)
+                w, h = rng.randint(2, 4), rng.randint(2, 4)
+                for ri in range(polys[pi + 1] - polys[pi]):
+                    if ri == 0:
+                        x0, y0, x1, y1 = cx - w, cy - h, cx + w, cy + h
+                    else:
+                        x0, y0, x1, y1 = cx - w + 1, cy - h + 1, cx - w + 1 + rng.choice([0.5, 1]), cy - h + 1 + rng.choice([0.5, 1])
+                    ring = [x0, y0, x1, y0, x1, y1, x0, y1, x0, y0]
+                    if rng.random() < 0.5:
+                        ring = [c for p in list(zip(ring[0::2], ring[1::2]))[::-1] for c in p]
+                    if rng.random() < 0.1:
+                        ring = []
+                    values += [float(c).hex() for c in ring]
+                    ring_off.append(len(values))
+            levels[-1] = ring_off
         off = rng.randint(0, n_parent)
+        if aligned:
+            off = 8 * rng.randint(1, n_parent // 8)
         ln = rng.randint(0, n_parent - off)
         bufs = []
         for k in range(L):
